@@ -171,6 +171,9 @@ def run_one(seed, preset=None, tier="quick", want_case=False):
     r["probes"] = probes
     r["faults"] = faults_fired
     r["sched_kinds"] = sched_kinds
+    if viol:
+        from simv.model.document import doc_to_json
+        r["doc_model"] = doc_to_json(case.doc)
     if want_case or viol:
         c = case.render()
         c["engine_config"] = cfg
